@@ -758,6 +758,7 @@ Lemma get_fetch_cases c d0 k hash sz b rnd h l1 d' r :
          ((fetch_valid c k b = false /\ r = Some (GetErr EInternal) /\ d' = mkD l1 (files d0) (handed d0)) \/
           (fetch_valid c k b = true /\
            exists l2 r2, LRU.add (lookup_key k hash) (get_item c k claimed delivered rnd) l1 = (l2, r2) /\
+             item_ok (get_item c k claimed delivered rnd) /\
              ((r2 = Ok false /\ r = Some (GetErr EInternal) /\ d' = mkD l2 (files d0) (handed d0)) \/
               (r2 = Ok true /\ r = Some (GetHit claimed cid delivered) /\
                d' = mkD l2 (mkFile p cid delivered true logical :: files d0) (handed d0))))))
@@ -798,7 +799,7 @@ Proof.
     assert (Hit : item_ok (get_item c k claimed delivered rnd)).
     { unfold item_ok, get_item. cbn. cbn in Hb. split; [|exact Hb].
       (* claimed >= 0 was checked *) lia. }
-    exists l2, r2. split; [reflexivity|].
+    exists l2, r2. split; [reflexivity|]. split; [exact Hit|].
     destruct (add_spec _ _ _ _ _ HI1 Hit EA) as (_ & _ & _ & _ & [(-> & _)|(-> & _)]).
     + left. split; [reflexivity|]. revert H.
       unfold cleanup_fun, opt, set_lru, set_files; cbn [lru files handed Z.gtb Z.compare fst snd].
@@ -807,4 +808,344 @@ Proof.
     + right. split; [reflexivity|]. revert H.
       unfold cleanup_fun, opt, set_lru, set_files; cbn [lru files handed Z.gtb Z.compare fst snd].
       intros H; inversion H; subst. split; reflexivity.
+Qed.
+
+(* every way the proxy branch can go, in an invariant index state *)
+Lemma get_proxy_cases c d0 k hash sz b rnd d' r :
+  Inv (lru d0) -> bget_ok b ->
+  get_proxy_fun c d0 k hash sz b rnd = (d', r) ->
+  (c_proxy c && (sz <=? c_maxproxy c) = false /\ d' = d0 /\ r = Some GetMiss) \/
+  (c_proxy c = true /\ sz <= c_maxproxy c /\
+   ((0 < sz /\ exists e, snd (LRU.reserve sz (lru d0)) = Err e /\
+               d' = mkD (reserved_index d0 sz) (files d0) (handed d0) /\ r = Some (GetErr e)) \/
+    ((0 < sz -> snd (LRU.reserve sz (lru d0)) = Ok tt) /\
+     exists d1, lru d1 = reserved_index d0 sz /\ files d1 = files d0 /\ handed d1 = handed d0 /\
+       get_fetch_fun c d1 k hash sz b rnd (if sz >? 0 then sz else 0) = (d', r)))).
+Proof.
+  intros HI Hb. unfold get_proxy_fun. destruct (c_proxy c && (sz <=? c_maxproxy c)) eqn:EP.
+  2:{ intros H; inversion H; subst. left. conj; reflexivity. }
+  intros H. apply andb_true_iff in EP as [EP1 EP2]. right. split; [exact EP1|]. split; [lia|].
+  revert H. unfold reserved_index. destruct (sz >? 0) eqn:G.
+  - destruct (LRU.reserve sz (lru d0)) as [l' r0] eqn:ER.
+    pose proof (limit_never_other sz (lru d0) HI) as HN. rewrite ER in HN. cbn [snd] in HN.
+    destruct r0 as [[]|e|s|s]; try contradiction.
+    + intros H. right. split; [intros _; reflexivity|]. exists (set_lru l' d0). conj; try reflexivity. exact H.
+    + intros H; inversion H; subst. left. split; [lia|]. exists e. conj; reflexivity.
+  - intros H. right. split; [lia|]. exists d0. conj; try reflexivity. exact H.
+Qed.
+
+(* C12: whatever the backend does, a hit for a key that was absent locally is a validated backend
+   object, reported with its announced size and served from the bytes that were delivered *)
+Theorem get_faults_safe c d k hash sz off zstd b rnd d' s cid flen :
+  peek (lookup_key k hash) (lru d) = None ->
+  exec c d (RGet k hash sz off zstd b rnd) = (d', Some (GetHit s cid flen)) ->
+  (get_shortcut k hash sz /\ s = 0 /\ cid = 0 /\ flen = 0) \/
+  (exists claimed full delivered cid' logical,
+     b = BFound claimed full delivered false cid' logical /\ fetch_good c k sz claimed b /\
+     s = claimed /\ cid = cid' /\ flen = delivered /\ c_proxy c = true /\ sz <= c_maxproxy c).
+Proof.
+  intros Hab. rewrite exec_get_eq. unfold get_fun.
+  destruct (get_guard k hash sz off zstd) as [g|] eqn:EG.
+  { intros H; inversion H; subst. left. apply get_guard_hit in EG. exact EG. }
+  rewrite (get_absent _ _ Hab). unfold get_proxy_fun. intros H. right.
+  destruct (c_proxy c && (sz <=? c_maxproxy c)) eqn:EP; [|inversion H].
+  apply andb_true_iff in EP as [EP1 EP2].
+  assert (HF : forall d1 h, get_fetch_fun c d1 k hash sz b rnd h = (d', Some (GetHit s cid flen)) ->
+     exists claimed full delivered cid' logical,
+       b = BFound claimed full delivered false cid' logical /\ fetch_good c k sz claimed b /\
+       s = claimed /\ cid = cid' /\ flen = delivered).
+  { clear H. intros d1 h. unfold get_fetch_fun.
+    assert (HN : forall d2 h tm r0, (forall s cid flen, r0 <> GetHit s cid flen) ->
+                 opt (cleanup_fun d2 h tm r0) = (d', Some (GetHit s cid flen)) -> False).
+    { clear h. intros d2 h tm r0 Hr H. pose proof (cleanup_not_hit d2 h tm r0 Hr s cid flen) as HX.
+      rewrite H in HX. apply HX. reflexivity. }
+    destruct b as [| |claimed full delivered berr cid' logical];
+      try (intros H; exfalso; eapply HN; [|exact H]; discriminate).
+    destruct (claimed >? c_maxproxy c) eqn:E1; [intros H; exfalso; eapply HN; [|exact H]; discriminate|].
+    destruct (mismatch sz claimed || (claimed <? 0)) eqn:E2; [intros H; exfalso; eapply HN; [|exact H]; discriminate|].
+    cbv zeta. destruct (find_file _ (files d1)); [discriminate|].
+    destruct berr; [intros H; exfalso; eapply HN; [|exact H]; discriminate|].
+    destruct (if get_raw c k then delivered =? claimed else (delivered =? full) && (logical =? claimed)) eqn:E3;
+      [|intros H; exfalso; eapply HN; [|exact H]; discriminate].
+    unfold get_commit_fun.
+    match goal with |- context [if h >? 0 then ?a else ?x] => destruct (if h >? 0 then a else x) as [l1 r1] end.
+    destruct r1 as [u|e|s0|s0]; try (intros H; exfalso; eapply HN; [|exact H]; discriminate).
+    match goal with |- context [LRU.add ?a ?x ?y] => destruct (LRU.add a x y) as [l2 r2] end.
+    destruct r2 as [[|]|e|s0|s0]; try (intros H; exfalso; eapply HN; [|exact H]; discriminate).
+    unfold cleanup_fun, opt. cbn [Z.gtb Z.compare fst snd f_cid f_len]. intros H; inversion H; subst.
+    exists s, full, flen, cid, logical. conj; try reflexivity.
+    pose proof (proj1 (fetch_good_iff c k sz (BFound s full flen false cid logical))) as HG.
+    apply HG. cbn [fetch_checks fetch_valid negb andb]. rewrite E1, E2, E3. reflexivity. }
+  destruct (sz >? 0).
+  - destruct (LRU.reserve sz _) as [l' r0]. destruct r0 as [u|e|s0|s0]; try (inversion H; fail).
+    destruct (HF _ _ H) as (cl & fu & de & ci & lo & H1 & H2 & H3 & H4 & H5).
+    exists cl, fu, de, ci, lo. conj; try assumption. lia.
+  - destruct (HF _ _ H) as (cl & fu & de & ci & lo & H1 & H2 & H3 & H4 & H5).
+    exists cl, fu, de, ci, lo. conj; try assumption. lia.
+Qed.
+
+Lemma peek_none_suffix' k s s' ev : order s = ev ++ order s' -> peek k s = None -> peek k s' = None.
+Proof. apply peek_none_suffix. Qed.
+
+(* the state and answer of a fetch for a key that is absent locally, all cases *)
+Theorem get_absent_cases c d k hash sz off zstd b rnd d' r :
+  Inv (lru d) -> bget_ok b -> get_guard k hash sz off zstd = None ->
+  peek (lookup_key k hash) (lru d) = None ->
+  exec c d (RGet k hash sz off zstd b rnd) = (d', r) ->
+  get_proxy_fun c d k hash sz b rnd = (d', r).
+Proof.
+  intros HI Hb EG Hab. rewrite exec_get_eq. unfold get_fun. rewrite EG, (get_absent _ _ Hab).
+  destruct d; exact (fun H => H).
+Qed.
+
+
+(* what a fetch does once the reservation is held, in terms of the state before the request *)
+Definition fetch_outcome (c : cfg) (d : dstate) (k : kind) (hash : string) (sz : Z) (b : bget) (rnd : string)
+    (d' : dstate) (r : option response) : Prop :=
+  let l1 := commit_index d sz in
+  match b with
+  | BErr => r = Some (GetErr EInternal) /\ d' = mkD l1 (files d) (handed d)
+  | BMiss => r = Some GetMiss /\ d' = mkD l1 (files d) (handed d)
+  | BFound claimed full delivered berr cid logical =>
+      if negb (fetch_checks c sz b) then r = Some GetMiss /\ d' = mkD l1 (files d) (handed d)
+      else
+        let p := get_path c k hash claimed rnd in
+        (find_file p (files d) <> None /\ r = None /\ d' = mkD (reserved_index d sz) (files d) (handed d)) \/
+        (find_file p (files d) = None /\
+         ((fetch_valid c k b = false /\ r = Some (GetErr EInternal) /\ d' = mkD l1 (files d) (handed d)) \/
+          (fetch_valid c k b = true /\
+           exists l2 r2, LRU.add (lookup_key k hash) (get_item c k claimed delivered rnd) l1 = (l2, r2) /\
+             item_ok (get_item c k claimed delivered rnd) /\
+             ((r2 = Ok false /\ r = Some (GetErr EInternal) /\ d' = mkD l2 (files d) (handed d)) \/
+              (r2 = Ok true /\ r = Some (GetHit claimed cid delivered) /\
+               d' = mkD l2 (mkFile p cid delivered true logical :: files d) (handed d))))))
+  end.
+
+Theorem get_absent_spec c d k hash sz off zstd b rnd d' r :
+  Inv (lru d) -> bget_ok b -> get_guard k hash sz off zstd = None ->
+  peek (lookup_key k hash) (lru d) = None ->
+  exec c d (RGet k hash sz off zstd b rnd) = (d', r) ->
+  (c_proxy c && (sz <=? c_maxproxy c) = false /\ d' = d /\ r = Some GetMiss) \/
+  (c_proxy c = true /\ sz <= c_maxproxy c /\
+   ((0 < sz /\ exists e, snd (LRU.reserve sz (lru d)) = Err e /\
+               d' = mkD (reserved_index d sz) (files d) (handed d) /\ r = Some (GetErr e)) \/
+    ((0 < sz -> snd (LRU.reserve sz (lru d)) = Ok tt) /\ fetch_outcome c d k hash sz b rnd d' r))).
+Proof.
+  intros HI Hb EG Hab H.
+  apply (get_absent_cases _ _ _ _ _ _ _ _ _ _ _ HI Hb EG Hab) in H.
+  destruct (get_proxy_cases _ _ _ _ _ _ _ _ _ HI Hb H)
+    as [HA|(EP1 & EP2 & [HB|(Hres & d1 & Hl1 & Hf1 & Hh1 & HF)])]; [left; exact HA|right..].
+  { split; [exact EP1|]. split; [exact EP2|]. left. exact HB. }
+  split; [exact EP1|]. split; [exact EP2|]. right. split; [exact Hres|].
+  destruct (commit_index_spec d sz HI Hres) as (HI1 & _ & _ & _ & _ & _ & HU).
+  assert (HU' : (if (if sz >? 0 then sz else 0) >? 0 then LRU.unreserve (if sz >? 0 then sz else 0) (lru d1)
+                 else (lru d1, Ok tt)) = (commit_index d sz, Ok tt)).
+  { rewrite Hl1. destruct (sz >? 0) eqn:G; [rewrite G|]; exact HU. }
+  pose proof (get_fetch_cases c d1 k hash sz b rnd _ _ _ _ HU' HI1 Hb HF) as HC.
+  assert (Hd1 : d1 = mkD (reserved_index d sz) (files d) (handed d)) by (destruct d1; cbn in *; congruence).
+  unfold fetch_outcome. rewrite Hf1, Hh1 in HC.
+  destruct b as [| |claimed full delivered berr cid logical]; try exact HC.
+  destruct (negb (fetch_checks c sz (BFound claimed full delivered berr cid logical))); [exact HC|].
+  cbv zeta in *. destruct HC as [(H1 & H2 & H3)|HC]; [left|right; exact HC].
+  split; [exact H1|]. split; [exact H2|]. rewrite H3. exact Hd1.
+Qed.
+
+(* C12: a failed or refused fetch leaves no trace: nothing becomes present, the reservation is
+   returned, the directory is as before *)
+Theorem get_no_poison c d k hash sz off zstd b rnd d' r :
+  Inv (lru d) -> bget_ok b ->
+  peek (lookup_key k hash) (lru d) = None ->
+  exec c d (RGet k hash sz off zstd b rnd) = (d', Some r) ->
+  (r = GetMiss \/ exists e, r = GetErr e) ->
+  Inv (lru d') /\ res (lru d') = res (lru d) /\ files d' = files d /\ handed d' = handed d /\
+  (forall k', peek k' (lru d) = None -> peek k' (lru d') = None).
+Proof.
+  intros HI Hb Hab H Hr.
+  destruct (get_guard k hash sz off zstd) as [g|] eqn:EG.
+  { rewrite (get_guarded c d k hash sz off zstd b rnd g EG) in H. inversion H; subst. conj; auto. }
+  destruct (get_absent_spec _ _ _ _ _ _ _ _ _ _ _ HI Hb EG Hab H)
+    as [(_ & -> & _)|(EP1 & EP2 & [(Hsz & e & ER & -> & _)|(Hres & HF)])].
+  - conj; auto.
+  - cbn [lru files handed]. unfold reserved_index. assert (G : (sz >? 0) = true) by lia. rewrite G.
+    pose proof (limit_refusal_pure sz (lru d) e HI ER) as (Ho & _ & _ & Hrs & _).
+    pose proof (reserve_inv sz (lru d) HI) as [HI' _].
+    conj; try assumption; try reflexivity. intros k'. unfold peek. rewrite Ho. auto.
+  - destruct (commit_index_spec d sz HI Hres) as (HI1 & _ & Hr1 & _ & _ & (ev & Hev) & _).
+    assert (B3 : forall k', peek k' (lru d) = None -> peek k' (commit_index d sz) = None).
+    { intros k'. apply (peek_none_suffix _ _ _ _ Hev). }
+    unfold fetch_outcome in HF. cbv zeta in HF.
+    destruct b as [| |claimed full delivered berr cid logical].
+    + destruct HF as [_ ->]. cbn [lru files handed]. conj; auto.
+    + destruct HF as [_ ->]. cbn [lru files handed]. conj; auto.
+    + destruct (negb (fetch_checks c sz (BFound claimed full delivered berr cid logical))).
+      { destruct HF as [_ ->]. cbn [lru files handed]. conj; auto. }
+      destruct HF as [(_ & Hx & _)|(Hfresh & [(_ & _ & ->)|(_ & l2 & r2 & EA & Hit & [(-> & _ & ->)|(_ & Hx & _)])])];
+        try discriminate.
+      * cbn [lru files handed]. conj; auto.
+      * destruct (add_spec _ _ _ _ _ HI1 Hit EA) as (HI2 & Hr2 & _ & _ & [(_ & Ho & _)|(Hx & _)]); [|discriminate].
+        cbn [lru files handed]. conj; try assumption; try reflexivity; [congruence|].
+        intros k' Hk. pose proof (B3 k' Hk) as Hk1. unfold peek in *. rewrite Ho. exact Hk1.
+      * inversion Hx; subst. destruct Hr as [Hr|[e Hr]]; discriminate.
+Qed.
+
+Lemma is_cas_key_lookup k hash : is_cas_key (lookup_key k hash) = kind_eqb k CAS.
+Proof. destruct k; destruct hash; reflexivity. Qed.
+
+Lemma path_of_get_item c k hash claimed delivered rnd :
+  path_of (lookup_key k hash) (get_item c k claimed delivered rnd) = get_path c k hash claimed rnd.
+Proof. unfold path_of, get_path, get_item. cbn [legacy size random]. rewrite is_cas_key_lookup. reflexivity. Qed.
+
+(* the conditions of a faithful read-through *)
+Record read_through_ok (c : cfg) (d : dstate) (k : kind) (hash : string) (sz off : Z) (zstd : bool)
+    (claimed full cid logical : Z) (rnd : string) : Prop := {
+  rt_guard : get_guard k hash sz off zstd = None;
+  rt_absent : peek (lookup_key k hash) (lru d) = None;
+  rt_proxy : c_proxy c = true;
+  rt_limit : sz <= c_maxproxy c;
+  rt_claimed : 0 <= claimed <= c_maxproxy c;
+  rt_size : mismatch sz claimed = false;
+  rt_full : 0 <= full;
+  (* complete and consistent: raw objects have the announced length, compressed CAS objects state
+     the announced size in their header *)
+  rt_consistent : if get_raw c k then full = claimed else logical = claimed;
+  rt_fresh : find_file (get_path c k hash claimed rnd) (files d) = None;
+  rt_space : 0 < sz -> sz <= maxs (lru d) /\ sz + res (lru d) <= maxs (lru d) /\
+                       (hard (lru d) <= 0 \/ cur (lru d) + qbytes (lru d) + sz <= hard (lru d));
+  rt_fits : res (lru d) + roundUp4k full <= maxs (lru d) }.
+
+(* C12: an object the backend holds and delivers completely is served as it is, and indexed *)
+Theorem get_read_through c d k hash sz off zstd claimed full cid logical rnd :
+  Inv (lru d) -> read_through_ok c d k hash sz off zstd claimed full cid logical rnd ->
+  exists d',
+    exec c d (RGet k hash sz off zstd (BFound claimed full full false cid logical) rnd)
+      = (d', Some (GetHit claimed cid full)) /\
+    Inv (lru d') /\
+    peek (lookup_key k hash) (lru d') = Some (get_item c k claimed full rnd) /\
+    files d' = mkFile (get_path c k hash claimed rnd) cid full true logical :: files d /\
+    handed d' = handed d /\ res (lru d') = res (lru d).
+Proof.
+  intros HI [EG Hab EP1 EP2 Hcl Hmm Hfull Hcons Hfresh Hspace Hfits].
+  set (b := BFound claimed full full false cid logical).
+  assert (Hb : bget_ok b) by exact Hfull.
+  destruct (exec c d (RGet k hash sz off zstd b rnd)) as [d' r] eqn:E. exists d'.
+  assert (Hres : 0 < sz -> snd (LRU.reserve sz (lru d)) = Ok tt).
+  { intros Hsz. destruct (Hspace Hsz) as (H1 & H2 & H3). apply (limit_admission sz (lru d) HI Hsz H1 H2). exact H3. }
+  assert (Hchk : fetch_checks c sz b = true).
+  { cbn [fetch_checks b]. rewrite Hmm. cbn [orb]. lia. }
+  assert (Hval : fetch_valid c k b = true).
+  { cbn [fetch_valid b negb andb]. destruct (get_raw c k); lia. }
+  destruct (get_absent_spec _ _ _ _ _ _ _ _ _ _ _ HI Hb EG Hab E)
+    as [(Hx & _)|(_ & _ & [(Hsz & e & ER & _)|(_ & HF)])].
+  { rewrite EP1 in Hx. cbn in Hx. lia. }
+  { rewrite (Hres Hsz) in ER. discriminate. }
+  unfold fetch_outcome in HF. cbv zeta in HF. fold b in HF. rewrite Hchk in HF. cbn [negb] in HF. rewrite Hval in HF.
+  destruct HF as [(Hx & _)|(_ & [(Hx & _)|(_ & l2 & r2 & EA & Hit & HF)])]; [contradiction|discriminate|].
+  destruct (commit_index_spec d sz HI Hres) as (HI1 & _ & Hr1 & Hm1 & _ & (ev & Hev) & _).
+  assert (Hab1 : find_key (lookup_key k hash) (order (commit_index d sz)) = None).
+  { pose proof (peek_none_suffix _ _ _ _ Hev Hab) as HX. unfold peek in HX.
+    destruct (find_key (lookup_key k hash) (order (commit_index d sz))); [discriminate|reflexivity]. }
+  assert (HA : snd (LRU.add (lookup_key k hash) (get_item c k claimed full rnd) (commit_index d sz)) = Ok true).
+  { pose proof (roundUp4k_nonneg _ Hfull) as Hnn. assert (H0 : 0 <= res (lru d)) by (destruct HI as ([] & _); assumption).
+    apply add_ok; [exact HI1|exact Hit|rewrite Hm1; cbn; lia|].
+    unfold add_delta. rewrite Hab1, Hr1, Hm1. cbn. lia. }
+  rewrite EA in HA. cbn [snd] in HA. subst r2.
+  destruct HF as [(Hx & _)|(_ & -> & ->)]; [discriminate|].
+  destruct (present_after_add _ _ _ _ HI1 Hit EA) as [_ Hp]. { rewrite Hr1, Hm1. exact Hfits. }
+  destruct (add_spec _ _ _ _ _ HI1 Hit EA) as (HI2 & Hr2 & _).
+  cbn [lru files handed]. conj; try assumption; try reflexivity. congruence.
+Qed.
+
+(* … and a second read of the same key is then a local hit with the same content *)
+Theorem get_read_through_cached c d k hash sz off zstd claimed full cid logical rnd d' b2 rnd2 :
+  Inv (lru d) -> read_through_ok c d k hash sz off zstd claimed full cid logical rnd ->
+  exec c d (RGet k hash sz off zstd (BFound claimed full full false cid logical) rnd)
+    = (d', Some (GetHit claimed cid full)) ->
+  exists d2, exec c d' (RGet k hash sz off zstd b2 rnd2) = (d2, Some (GetHit claimed cid full)) /\
+             files d2 = files d' /\ forall k', peek k' (lru d2) = peek k' (lru d').
+Proof.
+  intros HI Hrt E. destruct (get_read_through c d k hash sz off zstd claimed full cid logical rnd HI Hrt)
+    as (d1 & E1 & HI' & Hp & Hf & _). rewrite E in E1. inversion E1; subst d1. clear E1.
+  destruct Hrt as [EG Hab EP1 EP2 Hcl Hmm Hfull Hcons Hfresh Hspace Hfits].
+  pose proof (proj1 (get_guard_none k hash sz off zstd) EG) as (_ & Hsz1 & _).
+  (* the entry and its file pass the local checks, so the backend is never consulted *)
+  set (v := get_item c k claimed full rnd). set (f := mkFile (get_path c k hash claimed rnd) cid full true logical).
+  assert (HV : valid_file k sz v f = true).
+  { unfold valid_file, v, f, get_item. cbn [legacy f_complete f_logical f_len]. unfold get_legacy.
+    unfold get_raw in Hcons. unfold mismatch in Hmm.
+    destruct (kind_eqb k CAS); cbn [andb negb orb] in *.
+    - destruct (c_zstd c); cbn [negb] in *; [|reflexivity]. lia.
+    - subst full. unfold mismatch. lia. }
+  assert (HH : hit_of k v f = GetHit claimed cid full).
+  { unfold hit_of, v, f, get_item. cbn [size f_cid f_len]. unfold get_raw in Hcons.
+    destruct (kind_eqb k CAS); [reflexivity|]. cbn in Hcons. subst full. reflexivity. }
+  assert (HL : local_hit (lru d') (files d') k hash sz = Some (v, f)).
+  { apply local_hit_iff. split; [exact Hp|]. split; [exact Hmm|]. split; [|exact HV].
+    fold v. unfold v. rewrite path_of_get_item, Hf.
+    change (get_path c k hash claimed rnd) with (f_path f). apply find_file_head. }
+  rewrite exec_get_eq. unfold get_fun. rewrite EG.
+  pose proof (get_same (lookup_key k hash) (lru d') HI') as HG.
+  destruct (LRU.get (lookup_key k hash) (lru d')) as [l' g]. destruct HG as (HI2 & HS2 & Hg).
+  unfold peek in Hp. destruct (find_key (lookup_key k hash) (order (lru d'))) as [e|]; [|discriminate].
+  inversion Hp as [Hv]. subst g. rewrite Hv. fold v. unfold v at 1. cbn [size get_item]. rewrite Hmm.
+  apply local_hit_iff in HL as (_ & _ & HF & _). rewrite HF. unfold get_validate_fun. rewrite HV, HH.
+  exists (set_lru l' d'). conj; try reflexivity. intros k'. cbn [lru set_lru]. apply same_peek. exact HS2.
+Qed.
+
+(* ------------------------------------------------------------------ *)
+(* C18, for every interleaving: a fetch is only ever under way for a request whose own size is
+   within max_proxy_blob_size (thread-local invariant), and only objects whose announced size is
+   within it are committed ([fetch_commit_sound]) *)
+
+Definition proxy_ok (c : cfg) (t : thread) : Prop :=
+  match t_req t with
+  | RGet k hash sz off zstd b rnd =>
+      match t_pc t with
+      | GetFetch | GetCreate _ | GetCopy _ | GetCheck _ | GetCommit _ _ _ => c_proxy c = true /\ sz <= c_maxproxy c
+      | _ => True
+      end
+  | _ => True
+  end.
+
+Ltac fin_proxy :=
+  intros H; inversion H; subst; cbn; try tauto;
+  try (intros _; match goal with E : _ && (_ <=? _) = true |- _ => apply andb_true_iff in E as [? ?]; split; [assumption|lia] end).
+
+Lemma tstep_proxy_ok c d t d' t' : tstep c d t = Some (d', t') -> proxy_ok c t -> proxy_ok c t'.
+Proof.
+  unfold tstep, proxy_ok. destruct t as [req p held tmp]. cbn [t_req t_pc t_held t_tmp].
+  destruct req as [k hash sz st rnd|k hash sz off zstd b rnd|k hash sz b|ds bs ff].
+  - intros H _. rewrite (tstep_req _ _ _ _ _ H). exact I.
+  - destruct p; try (intros H; discriminate H); break_step; fin_proxy.
+  - intros H _. rewrite (tstep_req _ _ _ _ _ H). exact I.
+  - intros H _. rewrite (tstep_req _ _ _ _ _ H). exact I.
+Qed.
+
+Lemma spawn_proxy_ok c r : proxy_ok c (spawn r).
+Proof. destruct r; cbn; exact I. Qed.
+
+Lemma sstep_proxy_ok c s l : Forall (proxy_ok c) (thr s) -> Forall (proxy_ok c) (thr (sstep c s l)).
+Proof.
+  intros HF. destruct l as [r|i|]; cbn.
+  - apply Forall_app; split; [exact HF|]. constructor; [apply spawn_proxy_ok|constructor].
+  - destruct (nth_error (thr s) i) as [t|] eqn:E; [|exact HF].
+    destruct (tstep c (sd s) t) as [[d' t']|] eqn:E2; [|exact HF]. cbn.
+    apply Forall_upd_nth; [exact HF|]. eapply tstep_proxy_ok; [exact E2|].
+    rewrite Forall_forall in HF. apply HF. eapply nth_error_In; exact E.
+  - destruct (evictor_step (sd s)); exact HF.
+Qed.
+
+Lemma srun_proxy_ok c ls : forall s, Forall (proxy_ok c) (thr s) -> Forall (proxy_ok c) (thr (srun c s ls)).
+Proof. induction ls as [|l t IH]; intros s H; cbn; [exact H|]. apply IH, sstep_proxy_ok, H. Qed.
+
+Theorem proxy_commit_within_limits c mx hd ls t k hash sz off zstd b rnd cl od f :
+  In t (thr (srun c (sinit mx hd) ls)) -> t_req t = RGet k hash sz off zstd b rnd ->
+  t_pc t = GetCommit cl od f ->
+  c_proxy c = true /\ sz <= c_maxproxy c /\ 0 <= cl <= c_maxproxy c /\ fetch_good c k sz cl b.
+Proof.
+  intros Hin Hreq Hpc.
+  pose proof (fetch_commit_sound c mx hd ls t k hash sz off zstd b rnd cl od f Hin Hreq Hpc) as HG.
+  assert (HF : Forall (proxy_ok c) (thr (srun c (sinit mx hd) ls))) by (apply srun_proxy_ok; constructor).
+  rewrite Forall_forall in HF. specialize (HF t Hin). unfold proxy_ok in HF. rewrite Hreq, Hpc in HF.
+  destruct HF as [H1 H2]. split; [exact H1|]. split; [exact H2|]. split; [|exact HG].
+  unfold fetch_good in HG. destruct b; try contradiction. tauto.
 Qed.
